@@ -50,6 +50,40 @@ def _load_seeded(prop):
     return out
 
 
+def _load_benign(prop):
+    """Behaviour-preserving refactorings written by sub-agents (benign/):
+    every patch that touches a file this property is anchored in must leave
+    the check silent."""
+    out = []
+    root = os.path.join(VERIF, 'benign')
+    if not os.path.isdir(root):
+        return out
+    files = set()
+    try:
+        with open(os.path.join(VERIF, 'properties.jsonl')) as fh:
+            for line in fh:
+                d = json.loads(line)
+                if d['id'] == prop:
+                    files = set(d.get('anchors', {}).get('files', []))
+    except OSError:
+        return out
+    for d in sorted(os.listdir(root)):
+        dd = os.path.join(root, d)
+        if not os.path.isdir(dd):
+            continue
+        for f in sorted(os.listdir(dd)):
+            if not f.endswith('.diff'):
+                continue
+            pp = os.path.join(dd, f)
+            with open(pp) as fh:
+                touched = {l.split(' b/')[-1].strip() for l in fh
+                           if l.startswith('diff --git')}
+            if touched & files:
+                out.append({'name': 'benign/%s/%s' % (d, f), 'kind': 'benign',
+                            'patch': pp})
+    return out
+
+
 def _run_one(args):
     prop, base, entry, idx = args
     d = tempfile.mkdtemp(prefix='dsa-st-%s-%d-' % (prop, idx),
@@ -91,7 +125,7 @@ def _run_one(args):
 
 
 def run(ctx, prop):
-    corpus = _load_corpus(prop) + _load_seeded(prop)
+    corpus = _load_corpus(prop) + _load_seeded(prop) + _load_benign(prop)
     if not corpus:
         ctx.extra['selftest'] = 'no corpus for this property'
         return
